@@ -63,7 +63,7 @@ func firstDiffSection(a, b string) string {
 	return "length"
 }
 
-type snapRec struct{ dump, roots string }
+type snapRec struct{ dump, roots, dlgView string }
 
 // runCase executes one case on both sides. drv may be nil (implementation-only: oracle still runs).
 func runCase(ops []string, drv *vh.Driver) (*failure, caseStats, error) {
@@ -101,7 +101,7 @@ func runCase(ops []string, drv *vh.Driver) (*failure, caseStats, error) {
 		isRev, revLive := false, false
 		switch f[0] {
 		case "snap":
-			snaps[-1] = snapRec{g.dump(), g.roots()} // recorded before the snapshot is taken
+			snaps[-1] = snapRec{g.dump(), g.roots(), g.delegationsView()} // recorded before the snapshot is taken
 			gf, lf = []string{"snap"}, []string{"snap"}
 		case "rev":
 			isRev = true
@@ -136,6 +136,21 @@ func runCase(ops []string, drv *vh.Driver) (*failure, caseStats, error) {
 			if f[5] == "=" {
 				gf[5], lf[5] = cur.Stake.String(), cur.Stake.String()
 			}
+		}
+		if f[0] == "dg" && f[3] == "-all" {
+			// withdraw the whole delegation: the amount is read from the real validator record
+			cur := g.st.GetValidatorByMainAddr(valAddr(atoi(f[2])))
+			var amt string
+			if cur != nil {
+				if df := cur.GetDelegationFrom(accAddr(atoi(f[1]))); df != nil && df.Token.Sign() > 0 {
+					amt = "-" + df.Token.String()
+				}
+			}
+			if amt == "" {
+				cs.skipped++
+				continue
+			}
+			gf[3], lf[3] = amt, amt
 		}
 		if f[0] == "rwx" {
 			lf[0] = "rw"
@@ -211,6 +226,9 @@ func runCase(ops []string, drv *vh.Driver) (*failure, caseStats, error) {
 			if project(gd) != project(rec.dump) {
 				return &failure{"oracle", fmt.Sprintf("state after RevertToSnapshot(%d) differs from the state when the snapshot was taken: %s", id, firstDiffSection(project(gd), project(rec.dump))), i,
 					strings.Fields(firstDiffSection(project(gd), project(rec.dump)))[0]}, cs, nil
+			}
+			if dv := g.delegationsView(); dv != rec.dlgView {
+				return &failure{"oracle", fmt.Sprintf("GetDelegationsFrom after RevertToSnapshot(%d) = %s, at snapshot time = %s", id, dv, rec.dlgView), i, "delegations"}, cs, nil
 			}
 			if rt := g.roots(); rt == rootsUnstable || rec.roots == rootsUnstable {
 				cs.rootsSkipped++
@@ -485,6 +503,94 @@ func genCase(r *vh.RNG, flavour string) []string {
 	return g.ops
 }
 
+// delegation-list stream: one or two delegators build lists of 2-6 validators (appends, inserts of low addresses,
+// withdrawals of first/middle/last entries, top-ups), inside nested snapshots that are reverted or kept, in the first
+// and in later transactions (after Finalise / IntermediateRoot on the same StateDB).
+func genDelegationLists(r *vh.RNG) []string {
+	g := &gen{r: r, flavour: "dlist", removeOK: false}
+	for j := 0; j < nVals; j++ {
+		g.emit(fmt.Sprintf("vc %d %d 1 %d %d 1000", 1000+j, 1+r.Intn(3), 100+r.Intn(50), 100+r.Intn(50)))
+	}
+	dels := []int{256, 257}
+	for _, d := range dels {
+		g.emit(fmt.Sprintf("ab %d %d", d, 5+r.Intn(10)))
+	}
+	unit := "1000000000000000000"
+	dlg := func() {
+		d := dels[r.Intn(len(dels))]
+		if r.Chance(75) {
+			d = dels[0]
+		}
+		v := 1000 + r.Intn(nVals)
+		switch r.Weighted([]int{50, 30, 12, 8}) {
+		case 0:
+			g.emit(fmt.Sprintf("dg %d %d %s", d, v, unit))
+		case 1:
+			g.emit(fmt.Sprintf("dg %d %d -all", d, v))
+		case 2:
+			g.emit(fmt.Sprintf("dg %d %d 5", d, v))
+		case 3:
+			g.emit(fmt.Sprintf("dg %d %d -5", d, v))
+		}
+	}
+	nTx := r.Range(2, 4)
+	for tx := 0; tx < nTx; tx++ {
+		g.emit(fmt.Sprintf("prep %d %d", hashIDs[r.Intn(len(hashIDs))], tx))
+		if tx == 0 {
+			// build the initial list: 2-6 validators in random order
+			perm := []int{0, 1, 2, 3, 4, 5}
+			for i := len(perm) - 1; i > 0; i-- {
+				j := r.Intn(i + 1)
+				perm[i], perm[j] = perm[j], perm[i]
+			}
+			for _, j := range perm[:r.Range(2, nVals)] {
+				g.emit(fmt.Sprintf("dg %d %d %s", dels[0], 1000+j, unit))
+			}
+		}
+		n := r.Range(6, 20)
+		for k := 0; k < n; k++ {
+			switch r.Weighted([]int{45, 8, 5, 18, 14, 6}) {
+			case 0:
+				dlg()
+			case 1:
+				g.accOp()
+			case 2:
+				g.emit(fmt.Sprintf("vu %d %d %d = = %d", g.val(), 1+r.Intn(3), r.Intn(2), 1000+r.Intn(3)))
+			case 3:
+				if len(g.stack) < 5 {
+					l := fmt.Sprintf("L%d", g.nextL)
+					g.nextL++
+					g.stack = append(g.stack, frame{label: l})
+					g.emit("snap " + l)
+				}
+			case 4:
+				if len(g.stack) > 0 {
+					k := len(g.stack) - 1
+					if r.Chance(25) {
+						k = r.Intn(len(g.stack))
+					}
+					g.revertAt(k)
+				}
+			case 5:
+				if k := len(g.stack) - 1; k >= 0 {
+					g.stack = g.stack[:k]
+				}
+			}
+		}
+		if r.Chance(60) && len(g.stack) > 0 {
+			g.revertAt(r.Intn(len(g.stack)))
+		}
+		g.stack = nil
+		if r.Chance(70) {
+			g.emit("fin 1")
+		} else {
+			g.emit("root 1")
+		}
+	}
+	g.emit("root 1")
+	return g.ops
+}
+
 // malformed stream: invalid revert ids, refund underflow, out-of-range withdraw indices
 func mutateMalformed(r *vh.RNG, ops []string) []string {
 	out := append([]string{}, ops...)
@@ -613,8 +719,13 @@ func run(c *vh.Ctx) error {
 	totalOps, totalRev, nested, crashes, guardFail, modelSteps, rootsSkipped := 0, 0, 0, 0, 0, 0, 0
 	for i := 0; i < n; i++ {
 		r := c.R.Fork()
-		flavour := []string{"plain", "deleg", "ripemd", "malformed"}[r.Weighted([]int{70, 12, 5, 13})]
-		ops := genCase(r, flavour)
+		flavour := []string{"plain", "deleg", "ripemd", "malformed", "dlist"}[r.Weighted([]int{58, 10, 5, 12, 15})]
+		var ops []string
+		if flavour == "dlist" {
+			ops = genDelegationLists(r)
+		} else {
+			ops = genCase(r, flavour)
+		}
 		if flavour == "malformed" {
 			ops = mutateMalformed(r, ops)
 		}
